@@ -515,6 +515,19 @@ def _h_str(args, kw):
             def _no():
                 raise Unmodelled('str() of a symbolic real was inspected')
             return SymStr.lazy(a.eng, _no)
+        if core.CUR is not None and ta is not str:
+            # an object whose Python-level __str__ may produce symbolic text (e.g. a node being rendered):
+            # call it directly - the C-level str() would reject a non-str result
+            m = getattr(ta, '__str__', None)
+            if type(m) is _FUNCTION:
+                r = m(a)
+                if type(r) in (SymStr, SymTok):
+                    return r if type(r) is SymStr else r.value
+                if type(r) is str:
+                    return r
+                if isinstance(r, str):
+                    return str.__str__(r)
+                raise TypeError('__str__ returned non-string (type %s)' % type(r).__name__)
     return str(*args, **kw)
 
 
@@ -618,6 +631,24 @@ def _h_splitext(args, kw):
                 k += 1
         return p if type(p) is SymStr else p.value, ''
     return _os.path.splitext(p)
+
+
+def _h_dirname(args, kw):
+    p = args[0]
+    if type(p) in (SymStr, SymTok):
+        cs = chars_of(p)
+        eng = p.eng
+        last = -1
+        for i, c in enumerate(cs):
+            if (c == '/') if isinstance(c, str) else bool(SymBool(eng, c == 47)):
+                last = i
+        if last < 0:
+            return ''
+        head = cs[:last]
+        while head and ((head[-1] == '/') if isinstance(head[-1], str) else bool(SymBool(eng, head[-1] == 47))):
+            head = head[:-1]
+        return mk(eng, head) if head else '/'
+    return _os.path.dirname(p)
 
 
 def _h_re_sub(args, kw):
@@ -843,7 +874,7 @@ try:
 except ImportError:
     _UNIDECODE = {}
 
-_HANDLERS_PY = {_shlex.split: _h_shlex_split, _os.path.splitext: _h_splitext, _re.sub: _h_re_sub, _string.Template.substitute: _h_template_substitute}
+_HANDLERS_PY = {_os.path.dirname: _h_dirname, _shlex.split: _h_shlex_split, _os.path.splitext: _h_splitext, _re.sub: _h_re_sub, _string.Template.substitute: _h_template_substitute}
 _HANDLERS_PY.update(_UNIDECODE)
 _METHOD = type(_string.Template('x').substitute)
 
